@@ -63,10 +63,15 @@ def generate(streams: core.Streams, tier: str) -> dict:
         refs_docs = w.sample(cands, min(len(cands), w.randint(1, 3)))
         # one generate flag for the whole correlation: must agree with flags already fixed
         fixed = {gen_flag[r["title"]] for r in refs_docs if r["title"] in gen_flag}
-        if len(fixed) > 1:
-            refs_docs = [r for r in refs_docs if gen_flag.get(r["title"], True) is True] or refs_docs[:1]
-            fixed = {gen_flag[r["title"]] for r in refs_docs if r["title"] in gen_flag}
-        g = fixed.pop() if fixed else gen.chance(w, 0.35)
+        if gen.chance(w, 0.2):
+            # mixed generate flags for one referenced rule: what that rule emits is not defined by the
+            # statement (the model leaves it open), but it must not depend on the document order
+            g = gen.chance(w, 0.5)
+        else:
+            if len(fixed) > 1:
+                refs_docs = [r for r in refs_docs if gen_flag.get(r["title"], True) is True] or refs_docs[:1]
+                fixed = {gen_flag[r["title"]] for r in refs_docs if r["title"] in gen_flag}
+            g = fixed.pop() if fixed else gen.chance(w, 0.35)
         refs = [(r["name"] if gen.chance(w, 0.5) else r["id"]) for r in refs_docs]
         c = gen.gen_correlation(w, f"C{j}", refs, rid=gen.UUIDS[5 + j], name=f"corr_{j}", generate=g)
         if c["correlation"]["type"] in ("temporal", "temporal_ordered") and "condition" in c["correlation"]:
@@ -154,10 +159,12 @@ def model(sc: dict) -> dict:
     for c, rs in refs.items():
         for r in rs:
             referenced_by[r].append(c)
-    emits = {}
+    emits: dict[str, Any] = {}
     for t in titles:
         rb = referenced_by[t]
-        emits[t] = (not rb) or all(gen_of[c] for c in rb)
+        flags = {gen_of[c] for c in rb}
+        # mixed flags: not defined by the statement -> None (only order independence is asserted)
+        emits[t] = None if len(flags) > 1 else ((not rb) or all(gen_of[c] for c in rb))
     return {"emits": emits, "referenced_by": referenced_by}
 
 
@@ -311,7 +318,9 @@ def execute(scenario: dict) -> dict:
         probes["dangling_reference"] = 1
     if any(mdl["referenced_by"][t] and t.startswith("C") for t in titles):
         probes["correlation_referenced_by_correlation"] = 1
-    if any(not e for e in mdl["emits"].values()):
+    if any(e is None for e in mdl["emits"].values()):
+        probes["rule_referenced_with_mixed_generate_flags"] = 1
+    if any(e is False for e in mdl["emits"].values()):
         probes["suppressed_rule"] = 1
     if any(e and mdl["referenced_by"][t] for t, e in mdl["emits"].items()):
         probes["referenced_with_generate"] = 1
@@ -348,7 +357,8 @@ def _judge(sc: dict, mdl: dict, canon: dict, entry: dict, got: dict) -> dict | N
     if got["unattributed"]:
         raise core.HarnessError("unattributed query: " + repr(got["unattributed"])[:300])
     # (v) emission model
-    emitted = set(got["by_title"])
+    undefined = {t for t, e in mdl["emits"].items() if e is None}
+    emitted = set(got["by_title"]) - undefined
     want_emitted = {t for t, e in mdl["emits"].items() if e}
     if emitted != want_emitted:
         return {"oracle": "own-query-iff-unreferenced-or-generate", "kind": "emission-set-differs",
